@@ -31,7 +31,9 @@ type Case struct {
 }
 
 func (c *Case) Cfg() EngineCfg {
-	return EngineCfg{Lookback: time.Duration(c.Lookback) * time.Millisecond, QueryLookback: time.Duration(c.QLookback) * time.Millisecond}
+	// a third of the queries without a lookback of their own carry query options that leave it unset
+	return EngineCfg{Lookback: time.Duration(c.Lookback) * time.Millisecond, QueryLookback: time.Duration(c.QLookback) * time.Millisecond,
+		EmptyQueryOpts: c.QLookback == 0 && c.ID%3 == 1}
 }
 
 // EffLookback is the lookback the query must be evaluated with.
